@@ -3,7 +3,7 @@
    code points (`chars()`) or lists of UTF-8 bytes (`bytes()`); an operation
    that can panic returns [None] in the outer option.  Definitions only. *)
 From Coq Require Import NArith List Bool.
-From AV Require Import Model.Base.
+From AV Require Import Spec.StyleRec Model.Base.
 Import ListNotations.
 Local Open Scope N_scope.
 
@@ -132,3 +132,44 @@ Definition split_whitespace (s : list N) : list (list N) :=
    rejected either way.  The correspondence generators exclude the two. *)
 Definition to_lowercase_cp (c : N) : N := if (65 <=? c) && (c <=? 90) then c + 32 else c.
 Definition to_lowercase (w : list N) : list N := map to_lowercase_cp w.
+
+(* ---- vocabulary of the function translator (tools/gen_fn_text.py) ------------
+   Adapters between the Rust API the two `parse` functions call and the
+   definitions above; Generated/TextFn.v is written in these terms.
+   Definitions only. *)
+
+(* core::result::Result *)
+Inductive result (T E : Type) : Type := Ok (t : T) | Err (e : E).
+Arguments Ok {T E} t.
+Arguments Err {T E} e.
+
+(* Result::ok *)
+Definition res_ok {T E} (r : result T E) : option T := match r with Ok t => Some t | Err _ => None end.
+(* the std parsers above answer Err as [None]; the error value is not modelled *)
+Definition res_of_opt {T} (o : option T) : result T unit := match o with Some t => Ok t | None => Err tt end.
+
+(* VecDeque::pop_front: (the deque afterwards, the popped element) *)
+Definition pop_front {A} (l : list A) : list A * option A :=
+  match l with [] => ([], None) | x :: t => (t, Some x) end.
+
+(* a &str given by its code points: len() and slicing work on its UTF-8 bytes;
+   a slice is kept as bytes (only from_str_radix reads it) *)
+Definition str_len (w : list N) : N := N.of_nat (length (str_bytes w)).
+Definition str_slice_cp (w : list N) (lo hi : N) : option (list N) := str_slice (str_bytes w) lo hi.
+(* str::strip_prefix(char) *)
+Definition str_strip_prefix (w : list N) (c : N) : option (list N) :=
+  match w with
+  | x :: t => if x =? c then Some t else None
+  | [] => None
+  end.
+
+(* anstyle::Effects as its bit set: Effects::new(), the constant with bit i,
+   `|`, insert, remove *)
+Definition fx_new : N := 0.
+Definition fx_bit (i : N) : N := 2 ^ i.
+Definition fx_bitor (a b : N) : N := N.lor a b.
+Definition fx_insert (a b : N) : N := N.lor a b.
+Definition fx_remove (a b : N) : N := N.ldiff a b.
+
+(* impl BitOrAssign<Effects> for Style *)
+Definition style_or_effects (s : tstyle) (e : N) : tstyle := set_effects s (N.lor (t_eff s) e).
